@@ -277,13 +277,13 @@ class Builtins:
         if isinstance(v, VGen) and v.kind == "dictvalues":
             d = v.d
             ty = TSet(d.ty.v)
-            x = it.fresh("sv", d.ty.v.sort())
-            k = it.fresh("sk", d.ty.k.sort())
+            x = it.bound("sv", d.ty.v.sort())
+            k = it.bound("sk", d.ty.k.sort())
             img = z3.Lambda([x], z3.Exists([k], z3.And(z3.Select(d.ty.dom(d.term), k), z3.Select(d.ty.val(d.term), k) == x)))
             s = SV(ty, img)
             # pigeonhole: |dom d| = |image d|  <=>  d injective   (Finset.card_image_iff; Lean-checked, thorough tier)
             it.notes.add("lemma card_image (|dom m| = |image m| <=> m injective) assumed by the prover; checked in Lean (thorough tier)")
-            k1, k2 = it.fresh("pk1", d.ty.k.sort()), it.fresh("pk2", d.ty.k.sort())
+            k1, k2 = it.bound("pk1", d.ty.k.sort()), it.bound("pk2", d.ty.k.sort())
             dom, val = d.ty.dom(d.term), d.ty.val(d.term)
             inj = z3.ForAll([k1, k2], z3.Implies(z3.And(z3.Select(dom, k1), z3.Select(dom, k2), z3.Select(val, k1) == z3.Select(val, k2)), k1 == k2))
             it.assume((it.dict_len(d) == it.set_card(s)) == inj)
@@ -292,7 +292,7 @@ class Builtins:
         if isinstance(v, SV) and isinstance(v.ty, TSet):
             return v
         if isinstance(v, SV) and isinstance(v.ty, TSeq):
-            x = it.fresh("sx", v.ty.elem.sort())
+            x = it.bound("sx", v.ty.elem.sort())
             return SV(TSet(v.ty.elem), z3.Lambda([x], z3.Contains(v.term, z3.Unit(x))))
         raise Unsupported(f"set() of {v}")
 
@@ -354,7 +354,7 @@ class Builtins:
             s = self.list_comp(it, src.node, src.frame, want_bool=True)
         else:
             s = it.iter_to_seq(src, fr)
-        i = it.fresh("qi", z3.IntSort())
+        i = it.bound("qi", z3.IntSort())
         e = it.truthy(SV(s.ty.elem, s.term[i]), fr)
         rng = z3.And(i >= 0, i < z3.Length(s.term))
         if universal:
@@ -494,7 +494,7 @@ class Builtins:
             return NONE
         if name == "union":
             o = it.coerce(args[0], t)
-            k = it.fresh("uk", t.k.sort())
+            k = it.bound("uk", t.k.sort())
             return SV(t, z3.Lambda([k], z3.Or(z3.Select(s.term, k), z3.Select(o.term, k))))
         raise Unsupported(f"set method {name}")
 
@@ -523,7 +523,7 @@ class Builtins:
         if not (z3.is_int_value(step) and step.as_long() == 1):
             raise Unsupported("materialising a range with step != 1")
         n = z3.If(r.stop > r.start, r.stop - r.start, z3.IntVal(0))
-        i = it.fresh("ri", z3.IntSort())
+        i = it.bound("ri", z3.IntSort())
         it.assume(z3.Length(s) == n)
         it.assume(z3.ForAll([i], z3.Implies(z3.And(i >= 0, i < n), s[i] == r.start + i)))
         return SV(TSeq(TInt), s)
@@ -553,8 +553,8 @@ class Builtins:
     def some_order(self, it, d: SV) -> SV:
         """Keys of an unordered dict model in *some* order: a duplicate-free sequence covering dom."""
         ks = it.fresh("keys", z3.SeqSort(d.ty.k.sort()))
-        i, j = it.fresh("ki", z3.IntSort()), it.fresh("kj", z3.IntSort())
-        k = it.fresh("kk", d.ty.k.sort())
+        i, j = it.bound("ki", z3.IntSort()), it.bound("kj", z3.IntSort())
+        k = it.bound("kk", d.ty.k.sort())
         ln = z3.Length(ks)
         it.assume(z3.ForAll([i], z3.Implies(z3.And(i >= 0, i < ln), z3.Select(d.ty.dom(d.term), ks[i]))))
         it.assume(z3.ForAll([i, j], z3.Implies(z3.And(i >= 0, i < j, j < ln), ks[i] != ks[j])))
@@ -633,10 +633,21 @@ class Builtins:
             return self.filter_comp(it, node, gen, fr, n, elem_at)
         # pointwise map: result[i] = elt(src[i]); the element expression is evaluated once on a
         # generic index (pure evaluation: no forks, exceptions are obligations)
-        i = it.fresh("ci", z3.IntSort())
+        i = it.bound("ci", z3.IntSort())
         nfr = self._child_frame(fr, pure=True)
-        it.assign(gen.target, elem_at(i), nfr)
-        ev = it.eval(node.elt, nfr)
+        nfr.pure_code = True
+        guard = z3.And(i >= 0, i < n)
+        it.pure_ctx.append(([i], guard))
+        it.binder_stack.append([])
+        try:
+            it.assign(gen.target, elem_at(i), nfr)
+            ev = it.eval(node.elt, nfr)
+        finally:
+            it.pure_ctx.pop()
+            facts = it.binder_stack.pop()
+        if facts:
+            # facts established about the generic element hold for every index in range
+            it.assume(z3.ForAll([i], z3.Implies(guard, z3.And(facts))))
         if isinstance(ev, (PyTuple, PyList)):
             ety = it.val_ty(ev)
             ev = it.coerce(ev, ety)
@@ -659,6 +670,10 @@ class Builtins:
         nfr.heap_override = fr.heap_override
         nfr.ghost = fr.ghost
         nfr.contract = fr.contract
+        nfr.pure_code = getattr(fr, "pure_code", False)
+        for a in ("old_heap", "old_env"):
+            if hasattr(fr, a):
+                setattr(nfr, a, getattr(fr, a))
         return nfr
 
     def dict_comp(self, it, node, fr):
@@ -671,18 +686,18 @@ class Builtins:
         if not (isinstance(srcv, VGen) and srcv.kind == "dictitems"):
             raise Unsupported("dict comprehension source")
         d = srcv.d
-        k = it.fresh("dk", d.ty.k.sort())
+        k = it.bound("dk", d.ty.k.sort())
         nfr = self._child_frame(fr, pure=True)
         it.assign(gen.target, PyTuple([SV(d.ty.k, k), SV(d.ty.v, z3.Select(d.ty.val(d.term), k))]), nfr)
         ke = it.eval(node.key, nfr)
         ve = it.eval(node.value, nfr)
         rt = TDict(ke.ty, ve.ty)
         r = it.fresh("dcomp", rt.sort())
-        x = it.fresh("dx", ke.ty.sort())
+        x = it.bound("dx", ke.ty.sort())
         dom = d.ty.dom(d.term)
         # every source item contributes its key; the stored value comes from *some* source item
         # with that key (Python: the last one in iteration order)
-        k2 = it.fresh("dk2", d.ty.k.sort())
+        k2 = it.bound("dk2", d.ty.k.sort())
         nfr2 = self._child_frame(fr, pure=True)
         it.assign(gen.target, PyTuple([SV(d.ty.k, k2), SV(d.ty.v, z3.Select(d.ty.val(d.term), k2))]), nfr2)
         ke2 = it.eval(node.key, nfr2)
